@@ -12,8 +12,8 @@ Abstractions (DESIGN.md section 8):
   CA flag); certificate generation is a parameter `Generator` (assumed to sign
   with the signer it is given, see `Generator.Sound`); x509 itself is not modelled.
 * Image references are parsed by the harness (go-containerregistry) and arrive as
-  `Ref` = (registry, repository, identifier, `str` = ref.String(), `src` =
-  xpkg.ParsePackageSourceFromReference(ref)).
+  `Ref` = (registry, repository, identifier, `str` = ref.String()); `src` =
+  xpkg.ParsePackageSourceFromReference(ref) is computed by the model (`parseSource`).
 * A CRD / webhook configuration is the part a merge patch of the file's object
   can change (`content`, `versions`, conversion strategy, caBundle, webhooks) plus
   `extra` (everything the file does not declare: labels, status, ...).
@@ -551,6 +551,66 @@ def dnsGo (n : Nat) : Nat → List Char → List Char → List Char
 /-- xpkg.ToDNSLabel (on ASCII input, which image repositories are) -/
 def toDNSLabel (s : String) : String :=
   String.ofList (trimDashes (dnsGo s.toList.length 0 s.toList []))
+
+/-! ##### xpkg.ParsePackageSourceFromReference (name.go), over the characters of ref.String()
+
+`ref.String()` is the reference AS WRITTEN (go-containerregistry keeps the original string), so the
+function is pure string logic: `strings.Cut(s, "@")`, then cut at the last ':' iff it comes after the
+last '/'. The driver computes `Ref.src` with `parseSource` from `Ref.str` (it is no longer an input
+shipped by the harness), and the observation compares it with the real function per image. -/
+
+/-- `before, _, _ := strings.Cut(s, "@")`: everything in front of the first `c` (all of it when there is none) -/
+def cutAt (c : Char) : List Char → List Char
+  | [] => []
+  | x :: xs => if x = c then [] else x :: cutAt c xs
+
+/-- `strings.LastIndex(s, c)` for a one-byte separator: -1 when absent -/
+def lastIndex (c : Char) : List Char → Int
+  | [] => -1
+  | x :: xs =>
+    let r := lastIndex c xs
+    if 0 ≤ r then r + 1 else if x = c then 0 else -1
+
+/-- xpkg.ParsePackageSourceFromReference on the characters of ref.String() -/
+def parseSourceChars (cs : List Char) : List Char :=
+  let s := cutAt '@' cs
+  let i := lastIndex ':' s
+  if i > lastIndex '/' s then s.take i.toNat else s
+
+/-- xpkg.ParsePackageSourceFromReference(ref), as a function of ref.String() (ASCII, which valid references are) -/
+def parseSource (str : String) : String := String.ofList (parseSourceChars str.toList)
+
+/-- ParsePackageSourceFromReference as found at the pinned commit (D14):
+`strings.TrimRight(strings.TrimSuffix(ref.String(), ref.Identifier()), ":@")` – the identifier of a reference with
+tag AND digest is the digest, so the tag survives; an untagged repository ending in "latest" loses that suffix. -/
+def parseSourceCharsDefective (str ident : List Char) : List Char :=
+  let s := if ident.isSuffixOf str then str.take (str.length - ident.length) else str
+  (s.reverse.dropWhile fun c => c = ':' ∨ c = '@').reverse
+
+/-- A reference as written: `[host/]path[:tag][@digest]`. -/
+structure Written where
+  host : List Char            -- registry host as written ([] = none), may carry a port
+  path : List Char            -- repository path as written
+  tag : Option (List Char)
+  digest : Option (List Char)
+  deriving DecidableEq, Repr, Inhabited
+
+def Written.repoChars (w : Written) : List Char :=
+  (if w.host = [] then [] else w.host ++ ['/']) ++ w.path
+
+def optPart (sep : Char) : Option (List Char) → List Char
+  | some t => sep :: t
+  | none => []
+
+/-- the characters of the reference as written -/
+def Written.chars (w : Written) : List Char :=
+  w.repoChars ++ optPart ':' w.tag ++ optPart '@' w.digest
+
+/-- what the reference grammar guarantees of the parts (all that the theorem needs): no '@' in front of the digest,
+no '/' in a host, no ':' in a repository path, no ':' or '/' in a tag. A host may carry a port (`localhost:5000`). -/
+def Written.WF (w : Written) : Prop :=
+  '@' ∉ w.host ∧ '/' ∉ w.host ∧ '@' ∉ w.path ∧ ':' ∉ w.path ∧
+  (∀ t, w.tag = some t → '@' ∉ t ∧ ':' ∉ t ∧ '/' ∉ t)
 
 /-- the index `source ↦ object name` built from a package list; a later entry overrides an earlier one -/
 def buildIndex : List Pkg → List (String × String)
